@@ -61,6 +61,7 @@ def run_decode(chk, module, theorems, ext, salt, n_quick=32, n_thorough=200):
             run.gen_cases()
             run.build_drivers()
             W.decode_check(chk, run, (lambda ik, mk: judge(ik, mk, check_trait=not ext)))
+            W.constexpr_check(chk, run, max_cases=6 if chk.tier == 'quick' else 40)
     finally:
         run.cleanup()
     W.finish_cov(chk, run, 'one evaluation = one reference image (printed by the Lean specification from a random '
@@ -74,7 +75,8 @@ def run_decode(chk, module, theorems, ext, salt, n_quick=32, n_thorough=200):
         'decode_image_accepted discharges the layout hypothesis through resolve_wf for every layout accepted by the '
         'validator MODEL (Schema/Resolve.lean); that model is tied to the real validator by the acceptance/offset '
         'correspondence on generated schemas',
-        'constant evaluation (C++20 constexpr) is not exercised by the drivers',
+        'constant evaluation (C++20) is exercised by generated static_assert translation units for root-level scalar '
+        'fields, group counts/sizes and the message size; arrays, entries and data payloads only at run time',
         'messages whose data header composite is not (length, varData) at offset 0, or whose block length does not '
         'fit its header member, are skipped here (counted in run_stats)',
     ]
